@@ -1216,3 +1216,128 @@ Section QueryProofsOTM.
     intros h l _ _. apply labels_agree. intros H11. destruct c; discriminate.
   Qed.
 End QueryProofsOTM.
+
+(* ---- consequences for C07, C11, C18 ------------------------------------------ *)
+
+Section JoinCorollaries.
+  Variable V : Type.
+  Variable dflt : V.
+  Variable op : V -> V -> V * bool.
+  Variable b2v : bool -> V.
+  Variable on : bool.
+  Variable ml incl : list N.
+  Variable c : card.
+  Variable return_bool : bool.
+  Variable op_drops_name : bool.
+  Variable lhs_series rhs_series : list labels.
+
+  Notation stepT := (Z * list (nat * V) * list (nat * V))%type.
+  Notation run := (run_operator V dflt op b2v on ml incl c return_bool op_drops_name lhs_series rhs_series).
+  Notation good := (good_step V lhs_series rhs_series).
+
+  Definition one_side_series : list labels := if is_one_to_many c then lhs_series else rhs_series.
+
+  Lemma run_is_pairing_any : one_side_unique on ml one_side_series ->
+    forall steps prev, (noT <= prev)%Z -> increasing V prev steps -> Forall good steps ->
+    run steps = inl (map (fun s : stepT => (fst (fst s),
+                          relabel V on ml incl c return_bool op_drops_name lhs_series rhs_series
+                            (pure_step V op b2v c return_bool (op_hidx on ml c lhs_series rhs_series)
+                                       (op_lidx on ml c lhs_series rhs_series) (snd (fst s)) (snd s)))) steps).
+  Proof.
+    unfold one_side_series. destruct (is_one_to_many c) eqn:Hc; intros HA steps prev Hp Hi Hg.
+    - apply (run_operator_is_pairing_otm V dflt op b2v on ml incl c return_bool op_drops_name lhs_series rhs_series Hc HA steps prev); assumption.
+    - apply (run_operator_is_pairing V dflt op b2v on ml incl c return_bool op_drops_name lhs_series rhs_series Hc HA steps prev); assumption.
+  Qed.
+
+  Lemma increasing_gt : forall steps prev s, increasing V prev steps -> In s steps -> (prev < fst (fst s))%Z.
+  Proof.
+    induction steps as [|x steps IH]; intros prev s Hi Hin; [destruct Hin|].
+    simpl in Hi. destruct Hi as [Hlt Hi]. destruct Hin as [<-|Hin]; [assumption|].
+    specialize (IH _ _ Hi Hin). lia.
+  Qed.
+
+  (* C07 for the join: what a range query computes at a step is what the
+     one-step (instant) query at that timestamp computes, whatever came before
+     in the reused table *)
+  Theorem join_range_is_instants : one_side_unique on ml one_side_series ->
+    forall steps prev, (noT <= prev)%Z -> increasing V prev steps -> Forall good steps ->
+    forall s, In s steps ->
+    exists out outs, run [s] = inl [(fst (fst s), out)] /\ run steps = inl outs /\ In (fst (fst s), out) outs.
+  Proof.
+    intros HA steps prev Hp Hi Hg s Hs.
+    pose proof (increasing_gt steps prev s Hi Hs) as Hgt.
+    rewrite Forall_forall in Hg.
+    rewrite (run_is_pairing_any HA steps prev Hp Hi) by (apply Forall_forall; assumption).
+    rewrite (run_is_pairing_any HA [s] prev Hp) by (simpl; auto).
+    eexists. eexists. split; [reflexivity|]. split; [reflexivity|].
+    apply (in_map (fun s0 : stepT => (fst (fst s0), _)) steps s Hs).
+  Qed.
+End JoinCorollaries.
+
+Section StepWF.
+  Variable V : Type.
+  Variable op : V -> V -> V * bool.
+  Variable b2v : bool -> V.
+  Variable c : card.
+  Variable return_bool : bool.
+  Variable hidx : list (option nat).
+  Variable lidx : list (list nat).
+
+  Lemma map_fst_flat_map_slots (g : nat -> list (nat * V)) (l : list nat) :
+    (forall o x, In x (g o) -> fst x = o) -> (forall o, length (g o) <= 1) ->
+    map fst (flat_map g l) = filter (fun o => match g o with [] => false | _ => true end) l.
+  Proof.
+    intros Hfst Hlen. induction l as [|o l IH]; simpl; [reflexivity|].
+    rewrite map_app, IH. specialize (Hlen o). pose proof (Hfst o) as Hf.
+    destruct (g o) as [|x [|y r]]; simpl in *; [reflexivity| |lia].
+    rewrite (Hf x (or_introl eq_refl)). reflexivity.
+  Qed.
+
+  Lemma NoDup_app_intro {A} (a b : list A) :
+    NoDup a -> NoDup b -> (forall x, In x a -> In x b -> False) -> NoDup (a ++ b).
+  Proof.
+    induction a as [|x a IH]; intros Ha Hb Hd; simpl; [assumption|].
+    inversion Ha as [|? ? Hn Ha']; subst. constructor.
+    - intros Hin. apply in_app_or in Hin. destruct Hin as [Hin|Hin]; [contradiction|].
+      apply (Hd x); [left; reflexivity|assumption].
+    - apply IH; [assumption|assumption|]. intros y Hy. apply Hd. right. assumption.
+  Qed.
+
+  Lemma NoDup_flat_map_filter {A} (f : A -> list nat) (p : A -> nat -> bool) (l : list A) :
+    NoDup (flat_map f l) -> NoDup (flat_map (fun x => filter (p x) (f x)) l).
+  Proof.
+    induction l as [|x l IH]; simpl; intros H; [constructor|].
+    destruct (NoDup_app_inv _ _ H) as [N1 [N2 D]].
+    apply NoDup_app_intro; [apply NoDup_filter; assumption|apply IH; assumption|].
+    intros o Ho1 Ho2. apply filter_In in Ho1. destruct Ho1 as [Ho1 _].
+    apply in_flat_map in Ho2. destruct Ho2 as [y [Hy Ho2]]. apply filter_In in Ho2. destruct Ho2 as [Ho2 _].
+    apply (D o Ho1). apply in_flat_map. exists y. split; assumption.
+  Qed.
+
+  (* C18 for the join: the sample IDs of an output step vector are pairwise distinct *)
+  Theorem pure_step_ids_unique (lhs rhs : list (nat * V)) :
+    NoDup (all_outs V (rhs_outs c hidx lidx) rhs) ->
+    NoDup (map fst (pure_step V op b2v c return_bool hidx lidx lhs rhs)).
+  Proof.
+    intros Hnd. unfold pure_step.
+    set (g := fun (rs : nat * V) (o : nat) =>
+                match find (feeds V o (lhs_outs c hidx lidx)) lhs with
+                | Some ls => emit V b2v return_bool o (op (snd ls) (snd rs))
+                | None => []
+                end).
+    change (NoDup (map fst (flat_map (fun rs => flat_map (g rs) (rhs_outs c hidx lidx (fst rs))) rhs))).
+    assert (E : map fst (flat_map (fun rs => flat_map (g rs) (rhs_outs c hidx lidx (fst rs))) rhs) =
+                flat_map (fun rs => filter (fun o => match g rs o with [] => false | _ => true end)
+                                           (rhs_outs c hidx lidx (fst rs))) rhs).
+    { induction rhs as [|rs rhs' IH]; simpl; [reflexivity|].
+      rewrite map_app. f_equal.
+      - apply map_fst_flat_map_slots.
+        + intros o x Hx. unfold g in Hx. destruct (find (feeds V o (lhs_outs c hidx lidx)) lhs) as [ls|]; [|destruct Hx].
+          unfold emit in Hx. destruct return_bool; [destruct Hx as [<-|[]]; reflexivity|].
+          destruct (snd (op (snd ls) (snd rs))); [destruct Hx as [<-|[]]; reflexivity|destruct Hx].
+        + intros o. unfold g. destruct (find (feeds V o (lhs_outs c hidx lidx)) lhs) as [ls|]; [|simpl; lia].
+          unfold emit. destruct return_bool; [simpl; lia|]. destruct (snd (op (snd ls) (snd rs))); simpl; lia.
+      - apply IH. unfold all_outs in Hnd. simpl in Hnd. apply NoDup_app_inv in Hnd. tauto. }
+    rewrite E. apply (NoDup_flat_map_filter (fun rs : nat * V => rhs_outs c hidx lidx (fst rs))). exact Hnd.
+  Qed.
+End StepWF.
